@@ -312,7 +312,7 @@ func configureK(x *vc.Exec) {
 	x.MapValuesNonNil = libType
 	x.NonNilResult = func(name string) bool {
 		for _, n := range []string{"(*go/types.Tuple).At", "(*go/types.Named).Obj", "(*go/types.Var).Type", "(*go/types.Pointer).Elem",
-			"(*go/types.Slice).Elem", "(*go/types.Map).Key", "(*go/types.Map).Elem", "invoke go/types.Type.Underlying", "(*go/types.Func).Type", "fmt.Errorf", "errors.New", "(*go/token.FileSet).File"} {
+			"(*go/types.Slice).Elem", "(*go/types.Map).Key", "(*go/types.Map).Elem", "invoke go/types.Type.Underlying", "(*go/types.Func).Type", "fmt.Errorf", "errors.New", "(*go/token.FileSet).File", "go/types.NewStruct", "go/types.NewVar"} {
 			if name == n {
 				return true
 			}
